@@ -362,7 +362,13 @@ def register_pandas():
     def normalize_extension_array(arr):
         import numpy as np
 
-        return normalize_token(np.asarray(arr))
+        # keep the class and dtype, and do not go through a lossy float
+        # conversion for masked arrays with missing values
+        return (
+            type(arr),
+            normalize_token(arr.dtype),
+            normalize_token(np.asarray(arr, dtype=object)),
+        )
 
     # Dtypes
     @normalize_token.register(pd.api.types.CategoricalDtype)
